@@ -347,8 +347,29 @@ func (e *env) attestations(chains []string) []attRec {
 
 // realKey is the raw-store key the keeper uses for a claim.
 func realKey(c types.EthereumClaim) []byte {
-	h, _ := c.ClaimHash()
+	h, panicked := safeHash(c)
+	if panicked {
+		hashPanics++
+		return []byte(fmt.Sprintf("ClaimHash panicked #%d", hashPanics)) // equal to no other key
+	}
 	return append([]byte(c.GetChainReferenceId()), types.GetAttestationKey(c.GetSkywayNonce(), h)...)
+}
+
+var hashPanics int
+
+// safeHash: ClaimHash with a panic turned into a flag (a claim whose hash cannot be computed must be reported, not
+// crash the harness).
+func safeHash(c types.EthereumClaim) (h []byte, panicked bool) {
+	defer func() {
+		if r := recover(); r != nil {
+			h, panicked = nil, true
+		}
+	}()
+	h, err := c.ClaimHash()
+	if err != nil {
+		return nil, true
+	}
+	return h, false
 }
 
 // applyDigest applies a claim body through the real attestation handler in a cache context that is
